@@ -55,7 +55,7 @@ ASSUMPTIONS = [
 ]
 
 FP_VOCAB = 32  # Tak.Server.fpVocab
-FP_WIDTH = 48  # widest row the fingerprinting model accepts
+FP_WIDTH = 288  # widest row the fingerprinting model accepts (late-game 8x8 positions reach ~260 tokens)
 TOL = 1e-5
 
 _state = {}
@@ -488,6 +488,12 @@ def fp_schedules(ctx):
     for n in ([161, 170, 200, 260] if thorough else [161, rng.randint(162, 260)]):
         lat = [rng.choice([1000, 2500, 50000])]
         yield "burst2x", sched([0] * n + [lat[0]], _rows(rng, n + 1), lat)
+    # 2b. full queues of LONG rows: late-game positions on 7x7 / 8x8 encode to 100-260 tokens, so a
+    #     gathered batch holds 10^4 and more tokens (rows x padded width) - mixed with short ones
+    for n in ([40, 64, 80, 81, 100, 130] if thorough else [80, rng.choice([40, 100])]):
+        for lat in ([0], [2500]) if thorough else ([rng.choice([0, 2500])],):
+            rows = [[_tok(rng, 0.2) for _ in range(rng.randint(90, 260) if rng.random() < 0.85 else rng.randint(1, 40))] for _ in range(n)]
+            yield "burst-long-rows", sched([0] * n, rows, lat)
     # 3. trickles around the gather timeout
     for gap in GAPS:
         for n in ([2, 3, 8, 9, 20, 40] if thorough else [2, rng.choice([3, 8]), rng.choice([9, 20])]):
